@@ -61,7 +61,12 @@ impl FileSystem for PhysicalFS {
     }
 
     fn open_file(&self, path: &str) -> VfsResult<Box<dyn SeekAndRead + Send>> {
-        Ok(Box::new(File::open(self.get_path(path))?))
+        let file = File::open(self.get_path(path))?;
+        // opening a directory read-only succeeds on Unix, only reading from it fails
+        if file.metadata()?.is_dir() {
+            return Err(VfsErrorKind::Other("Not a file".into()).into());
+        }
+        Ok(Box::new(file))
     }
 
     fn create_file(&self, path: &str) -> VfsResult<Box<dyn SeekAndWrite + Send>> {
